@@ -1,3 +1,7 @@
 #!/bin/bash
-# runs the repository's pinned test-suite (guard off) and prints the number of passing tests (expected: 354)
-cd /repo && env -u PYMODBUS_VERIF /venv/bin/python -m pytest -ra -q -p no:cacheprovider --timeout=900 --continue-on-collection-errors "$@" 2>&1 | tail -3
+# runs the repository's pinned test-suite (guard off); exit 0 iff exactly the 354 baseline tests pass
+cd /repo && env -u PYMODBUS_VERIF /venv/bin/python -m pytest -ra -q -p no:cacheprovider --timeout=900 --continue-on-collection-errors "$@" > /tmp/baseline.$$ 2>&1
+tail -3 /tmp/baseline.$$
+grep -q " 354 passed" /tmp/baseline.$$; rc=$?
+rm -f /tmp/baseline.$$
+exit $rc
